@@ -188,9 +188,23 @@ def run(ctx):
         for s in main.stmts(b):
             if s["k"] == "assign" and s["r"]["k"] == "agg" and s["r"].get("ak") == "closure" and s["r"]["closure"] in may_read:
                 targets.append(s["r"]["closure"])
+        def self_inits(fname, depth=0):
+            """the callee initialises the flag itself before anything in it can read it (`run(features, ..)` starting with features::init)"""
+            g = prog.fns.get(fname)
+            if g is None or g.bkind != "fn" or depth > 3:
+                return False
+            own = [ib for ib, tt, cc in g.calls() if cc == INIT]
+            readers = []
+            for rb, tt, cc in g.calls():
+                hit = cc == FLAG_READ or cc in may_read or any((x_[3:] if x_.startswith("fn:") else x_) in may_read for x_ in tt["f"].get("closures", []))
+                if hit:
+                    readers.append((rb, cc))
+            if not readers:
+                return False
+            return all(any(g.dominates(ib, rb) and ib != rb for ib in own) or (cc in prog.fns and cc != fname and self_inits(cc, depth + 1)) for rb, cc in readers)
         for c in targets:
             ctx.instance(1)
-            ok = any(ib in dom[b] and ib != b for ib in init_blocks)
+            ok = any(ib in dom[b] and ib != b for ib in init_blocks) or self_inits(c)
             unit = unit_of.get(b, "?")
             ctx.oblig(ok, {"site": sp_file_line(t.get("sp")), "unit": unit, "reaches_flag_via": short(c)}, "dominated by features::init")
             if not ok:
@@ -248,6 +262,33 @@ def run(ctx):
             ctx.violation("unit=%s|arg" % unit_of.get(b, "?"), sp_file_line(t.get("sp")),
                           "features::init(%s) in the `%s` arm does not take its value from the command line; that arm cannot "
                           "agree with `compile -f stack`" % (expr_str(e), unit_of.get(b, "?")))
+    # an init that sits in a helper of the binary (`run(features, ..)` starting with features::init(features)) takes a parameter: the value
+    # handed in at each call in main is held to the same standard
+    for n, f in sorted(prog.fns.items()):
+        if f.bkind != "fn" or not n.startswith("bin::") or n == main.name:
+            continue
+        for ib, it, ic in f.calls():
+            if ic != INIT:
+                continue
+            pe = kit.strip_refs(f.expr(it["args"][0], 6))
+            sites = [(b, t) for b, t, c in main.calls() if c == n]
+            if pe[0] != "arg" or not sites:
+                ctx.instance(1)
+                ctx.oblig(False, {"init in": short(n), "argument": expr_str(pe, 60)}, "a parameter filled from the command line")
+                ctx.violation("unit=%s|arg" % short(n), sp_file_line(it.get("sp")), "features::init(%s) in `%s` does not take its value from the command line (it is neither "
+                              "a parameter handed down from main nor the parsed options)" % (expr_str(pe, 60), short(n)))
+                continue
+            for b, t in sites:
+                ctx.instance(1)
+                e = main.expr(t["args"][pe[1] - 1])
+                roots = [x for x in expr_walk(e) if x[0] == "local"]
+                from_cli = any(x[1] in parse_locals for x in roots) or any(c.endswith("Parser::parse") and "clap" in c for c in kit.expr_calls(e))
+                ok = from_cli and "features" in kit.expr_fields(e)
+                ctx.oblig(ok, {"init_arg": expr_str(e), "through": short(n), "at": sp_file_line(t.get("sp"))}, "field `features` of the clap result")
+                if not ok:
+                    ctx.violation("unit=%s|arg" % unit_of.get(b, "?"), sp_file_line(t.get("sp")),
+                                  "`%s` initialises the feature flags from its parameter, and the `%s` arm hands it `%s`, which does not come from the command line"
+                                  % (short(n), unit_of.get(b, "?"), expr_str(e)))
     # siblings: every sub-command arm computes the value the same way from its own options (an arm that, say, forgets to merge
     # flags given before the sub-command assembles the same file under a different feature set than the others)
     def shape(e):
